@@ -233,7 +233,7 @@ def handle (ws : List String) : String :=
     | some a, some b, some idx =>
       let fs := addFiles 1 [a, b]
       reply (posOut (fileSetPosition fs idx)) (posOut (Spec.fileSetPosition fs idx))
-        (if idx ≥ 1 then "fileset_position_base_twice" else "-")
+        "-"
     | _, _, _ => "bad-op"
   | ["etostr", k] =>
     let tk : Option ThisKind := match k with
